@@ -215,6 +215,21 @@ def main(pid, tier, replay_path=None):
                     violations.append(p)
                     vlib.log('violation in %s at step %d (%s): [%s] %s' % (b['id'], r['step'], r['op'], r['class'], r['detail']))
                     vlib.log('   ops: ' + ' '.join('%s(%d,%d)' % (s['op'], s['b'], s['a1']) for s in b['steps'][:r['step'] + 1]))
+            # ---- C03: references dropped concurrently (a Slice reader on another goroutine against its owner): the ledger never sees a double free
+            crcov = {}
+            if pid == 'C03' and (not replay_path or rp.get('concurrent_release')):
+                import subprocess
+                outp = sc.path('crel.json')
+                env = dict(vlib.GOENV, VERIF_OUT=outp, VERIF_BUDGET_MS=str(6000 if tier == 'quick' else 90000))
+                p_ = subprocess.run([binary, '-test.run', '^TestVerifBufConcurrentRelease$', '-test.count=1', '-test.timeout', '600s'], cwd=sc.path('repo'), env=env,
+                                    stdout=subprocess.PIPE, stderr=subprocess.STDOUT, text=True, timeout=700)
+                if not os.path.exists(outp):
+                    raise vlib.Inconclusive('concurrent-release run failed: ' + p_.stdout[-600:])
+                cr = json.load(open(outp))
+                crcov = {'concurrent_release_rounds': cr['rounds'], 'concurrent_release_double_frees': cr['double_free']}
+                if cr['double_free'] or cr['other']:
+                    violations.append(vlib.save_replay(pid, '%s_crel' % tier, {'property': pid, 'tier': tier, 'concurrent_release': True, 'result': cr}))
+                    vlib.log('violation in the concurrent-release run after %d rounds: %s' % (cr['rounds'], cr['detail']))
             # ---- the node-level transcription LinkBuffer.tla: exhaustive to a bounded number of calls, its behaviours on the real code
             lbcov = {}
             if not replay_path or 'lbbehaviour' in rp:
@@ -273,6 +288,7 @@ def main(pid, tier, replay_path=None):
                                'with result, Len/MallocLen, readable content, live results, caller memory and pool ledger compared after every step',
             }
             cov.update(lbcov)
+            cov.update(crcov)
             if lbcov:
                 cov['spec_modules'] = vlib.spec_hashes(['ByteQueue.tla', 'ByteQueueSim.tla', 'LinkBuffer.tla'])
             vlib.write_evidence(pid, tier if tier in ('quick', 'thorough') else 'quick', 'model_checking', cov, time.time() - t0, len(violations),
